@@ -86,7 +86,7 @@ func genSegment(s sim.Source, depth int, cfg PoolCfg, prevCatch bool) (seg strin
 }
 
 // oddHostLabels adds labels with upper-case letters: registered hostnames are kept and matched byte for byte.
-var oddHostLabels = append(append([]string(nil), hostLabels...), "Ab", "B")
+var oddHostLabels = append(append([]string(nil), hostLabels...), "Ab", "B", "10", "0") // numeric labels: legal next to a {param}
 
 func genHost(s sim.Source, odd bool) string {
 	hostLabels := hostLabels
@@ -321,6 +321,11 @@ func Instantiate(s sim.Source, p *model.Pattern) (host, path string) {
 		case model.TStatic:
 			sb.WriteByte(t.B)
 		case model.TParam:
+			if p.Host != "" && !strings.Contains(sb.String(), "/") && s.Intn("numerichost", 5) == 0 {
+				// numeric label parts: a Host that reads like an IPv4 literal still equals the pattern label for label
+				sb.WriteString(sim.Pick(s, "numval", []string{"7", "42", "0"}))
+				break
+			}
 			if p.Host != "" && !strings.Contains(sb.String(), "/") && s.Intn("bracehost", 12) == 0 {
 				// a host label part is any non-empty dot-free text: also text that looks like a wildcard
 				sb.WriteString(sim.Pick(s, "braceval", []string{"{v}", "{h1}", "a{", "{", "}", "*{v}"}))
